@@ -343,7 +343,10 @@ def run_monitors(pid, name, scs):
         body = ''
         for j in chunk:
             body += 'Definition h%d : list aev := %s.\n' % (j, C.coq_list(['(%s)' % t for t, _ in hists[j]]))
-        terms = C.coq_list(['(mon_one_in_flight h%d, mon_no_dup h%d, mon_content h%d, mon_persistent_replay h%d, mon_delivered h%d, mon_blocking h%d)' % ((j,) * 6) for j in chunk])
+        for j in chunk:
+            owner = [(n, pi) for pi, p in enumerate(scs[j]['pubs']) for call in p['calls'] for n in call]
+            body += 'Definition o%d : list (nat * nat) := %s.\n' % (j, C.coq_list(['(%d, %d)' % q for q in owner]))
+        terms = C.coq_list(['(mon_one_in_flight h%d, mon_no_dup h%d, mon_content h%d, mon_persistent_replay h%d, mon_delivered h%d, mon_blocking h%d ++ mon_blocking_order o%d h%d)' % ((j,) * 8) for j in chunk])
         r = C.coq_eval(pid, '%s_M_%d' % (name, part), MON_HEADER + body, [('R', terms)])
         for j, v in zip(chunk, r['R']):
             sc = scs[j]
@@ -423,6 +426,60 @@ def redelivery_check(res, sc, mo, sig):
     for (x, p), c in sorted(last.items()):
         if x not in gone and (x, c) in nacked:
             res.violations.append(dict(signature=sig, what='subscription %d Nacked message %d and did not receive it again although it stayed open' % (x, p), case=readable(sc, mo['hist'])))
+
+def liveness_verdicts(sc, m):
+    """Time-based verdicts (testing, generous bounds) on one scenario, from the event clock:
+    returns list of (signature_suffix, text).  (1) a cancelled subscription whose output channel
+    was not closed although the cancel happened >= 700 ms before the driver gave up waiting;
+    (2) a blocking Publish still blocked at that moment although every subscription that was
+    active for it had acked or been cancelled >= 700 ms earlier."""
+    ev = sc['events']
+    td = next((e['t'] for e in ev if e['p'] == 'api.driver.close_to_release'), None)
+    out = []
+    if td is None:
+        return out
+    sub2uuid = {v: k for k, v in m.uuid2sub.items()}
+    closed_out = {}
+    for e in ev:
+        if e['p'] == 'gochannel.sub.close.closing_output' and e['t'] <= td:
+            closed_out[e['k'][0]] = e['t']
+    cancel_t = {}
+    for e in ev:
+        if e['p'] == 'api.cancel' and e['t'] <= td:
+            cancel_t.setdefault(int(e['k'][0]), e['t'])
+    SLACK = 700000
+    for x, tc in cancel_t.items():
+        u = sub2uuid.get(x)
+        if u is not None and u not in closed_out and td - tc >= SLACK:
+            out.append(('cancel-not-completed', 'subscription %d: context cancelled %.0f ms before the driver gave up, output channel still not closed' % (x, (td - tc) / 1000)))
+    if sc['blocking']:
+        sub_ret = {}; sub_topic = {}
+        for e in ev:
+            if e['p'] == 'api.subscribe.call': sub_topic[int(e['k'][0])] = int(e['k'][1])
+            if e['p'] == 'api.subscribe.ret' and e['k'][1] == 'true': sub_ret[int(e['k'][0])] = e['seq']
+        acked = {}      # (sub, msg uuid) -> time of ack
+        copy_msg = {}
+        for e in ev:
+            if e['p'] == 'api.recv': copy_msg[(int(e['k'][0]), e['k'][2])] = e['k'][1]
+            if e['p'] == 'api.ack' and e['t'] <= td:
+                u = copy_msg.get((int(e['k'][0]), e['k'][2]))
+                if u: acked.setdefault((int(e['k'][0]), u), e['t'])
+        rets = {(e['k'][0], e['k'][1]) for e in ev if e['p'] == 'api.publish.ret' and e['t'] <= td}
+        for e in ev:
+            if e['p'] != 'api.publish.call' or e['t'] > td or (e['k'][0], e['k'][1]) in rets or e['k'][0] == '99':
+                continue
+            topic = int(e['k'][2]); msgs = e['k'][3:]
+            active = [x for x, s in sub_ret.items() if s < e['seq'] and sub_topic.get(x) == topic]
+            waiting = False; latest = e['t']
+            for x in active:
+                if x in cancel_t:
+                    latest = max(latest, cancel_t[x]); continue
+                for u in msgs:
+                    if (x, u) in acked: latest = max(latest, acked[(x, u)])
+                    else: waiting = True
+            if not waiting and td - latest >= SLACK:
+                out.append(('blocked-publish', 'blocking Publish of %s still blocked %.0f ms after every subscription that was active for it had acked or been cancelled' % (','.join(msgs), (td - latest) / 1000)))
+    return out
 
 def samples(res, scs, mons):
     for sc, mo in list(zip(scs, mons))[:2]:
